@@ -75,10 +75,44 @@ def scale_case(case, i):
     case.update({"msgs": msgs, "paired": shape in ("deeply_nested", "big_paired"), "prefix": [], "big": shape})
     case.pop("motif_times", None)
     case.pop("zero_length", None)
+    case.pop("unison", None)
+
+def make_unison_case(rng, i):
+    """doubled voices on one channel: two (or three) paired notes of ONE key struck on the same tick -- with the same velocity in two
+    thirds of the cases -- and released on different ticks (one staccato, one legato), their note-ons adjacent in the stream"""
+    c, k = rng.choice([0, 1, 2]), rng.choice([60, 61, 67])
+    v = rng.randint(1, 127)
+    mode = (i // 17) % 3
+    v2 = v if mode != 2 else (v % 127) + 1
+    l1 = rng.randint(1, 24)
+    l2 = l1 + rng.randint(1, 24) if mode != 1 or rng.random() < 0.5 else l1
+    t0 = rng.choice([0, 0, 5, 24])
+    msgs = [["wait", t0]] if t0 else []
+    msgs += [["on", c, k, v], ["on", c, k, v2]]
+    third = rng.random() < 0.3
+    if third:
+        msgs.append(["on", c, k, v])
+    msgs.append(["wait", l1])
+    msgs.append(["off", c, k])
+    if rng.random() < 0.3:
+        msgs += [["on", (c + 1) % 3, k, 50], ["wait", 2], ["off", (c + 1) % 3, k]]
+        l2 = max(l2, l1 + 2)
+        msgs.append(["wait", l2 - l1 - 2]) if l2 - l1 - 2 > 0 else None
+    elif l2 > l1:
+        msgs.append(["wait", l2 - l1])
+    msgs.append(["off", c, k])
+    if third:
+        msgs += [["wait", 3], ["off", c, k]]
+    if rng.random() < 0.5:
+        msgs.append(["wait", rng.randint(1, 20)])
+    return {"msgs": [m for m in msgs if m], "paired": True, "prefix": [], "unison": mode}
+
 
 def make_case(rng, i, tier):
     if i % 14 == 6:
         return make_zero_length_case(rng, i)
+    if i % 17 == 11:
+        return make_unison_case(rng, i)
     chans = rng.choice([(0,), (0, 1), (0, 1, 2), (1, 2)])
     pitches = rng.choice(PITCHSETS)
     msgs = []
@@ -164,6 +198,8 @@ def make_case(rng, i, tier):
 def run(case, ctx):
     from vmon.monitors import LOG
     s = gen.raw_rel_seq(case["msgs"])
+    if case.get("unison") is not None:
+        LOG.n("c07.unison_doubled_note_input")
     if case.get("zero_length"):
         LOG.n("c07.zero_length_note_input")
     if case.get("motif_times"):
